@@ -127,7 +127,9 @@ fn has_big_operand(v: &Value) -> bool {
 fn classify(rule: &Value, data: &Value, obs: &mut Obs) {
     let (_, ctx) = model::eval(rule, data);
     let root = model::eval::as_operation(rule).map(|x| x.0).unwrap_or("literal");
-    if ctx.ops_executed != 0 && (has_big_operand(rule) || has_big_operand(data) || depth_of(rule) > 16 || depth_of(data) > 16) {
+    // the fixed data document of extreme_flat does not count: the rule's own operands must be extreme
+    let data_counts = data.get("big").is_none();
+    if ctx.ops_executed != 0 && (has_big_operand(rule) || (data_counts && has_big_operand(data)) || depth_of(rule) > 16 || depth_of(data) > 16) {
         obs.nt(&format!("{} with extreme operand", root));
     } else if ctx.ops_executed != 0 {
         obs.class(&format!("{} small operands", root));
